@@ -1,0 +1,43 @@
+//go:build verif
+
+// Contracts for govc (see /verif/DESIGN.md). Comment-only file.
+
+package ascii
+
+//@ property C38 C31 C32
+
+//@ spec asciiIsLower(c byte) bool = 97 <= c && c <= 122
+//@ spec asciiIsUpper(c byte) bool = 65 <= c && c <= 90
+//@ spec asciiIsDigit(c byte) bool = 48 <= c && c <= 57
+//@ spec asciiLower(c byte) byte = asciiIsUpper(c) ? c + 32 : c
+//@ spec asciiUpper(c byte) byte = asciiIsLower(c) ? c - 32 : c
+//@ spec asciiIsHex(c byte) bool = asciiIsDigit(c) || (97 <= c && c <= 102) || (65 <= c && c <= 70)
+//@ spec asciiDigitVal(c byte) int = asciiIsDigit(c) ? c - 48 : (97 <= c && c <= 102) ? c - 87 : (65 <= c && c <= 70) ? c - 55 : 99
+
+//@ func IsLower(c) (r)
+//@   pure
+//@   ensures! def: r <==> asciiIsLower(c)
+//@ func IsUpper(c) (r)
+//@   pure
+//@   ensures! def: r <==> asciiIsUpper(c)
+//@ func ToLower(c) (r)
+//@   pure
+//@   ensures! def: r == asciiLower(c)
+//@ func ToUpper(c) (r)
+//@   pure
+//@   ensures! def: r == asciiUpper(c)
+//@ func IsLetter(c) (r)
+//@   pure
+//@   ensures! def: r <==> asciiIsLower(c) || asciiIsUpper(c)
+//@ func IsDigit(c) (r)
+//@   pure
+//@   ensures! def: r <==> asciiIsDigit(c)
+//@ func IsSpace(c) (r)
+//@   pure
+//@   ensures! def: r <==> c == 32 || c == 9 || c == 13 || c == 10 || c == 11
+//@ func IsHexDigit(c) (r)
+//@   pure
+//@   ensures! def: r <==> asciiIsHex(c)
+//@ func Digit(c, radix) (r)
+//@   pure
+//@   ensures! def: r == (asciiDigitVal(c) < radix ? asciiDigitVal(c) : -1)
